@@ -105,6 +105,7 @@ def make_case(index, rng, tier):
                 "extra": "noise-after-term" if sig == "TERM" and rng.randrange(4) == 0 else None,
             "wconn": rng.choice([1, 2, 10]) if kind in ("gevent", "eventlet") else 10,
                 "sig_tick": rng.randrange(1, 120) if rng.randrange(3) == 0 else None, "keepalive": rng.choice([1, 2, 3, 5]),
+                "sig_on_send": rng.choice([1, 1, 2]) if rng.randrange(8) == 0 else None,
                 "binds": rng.choice([1, 1, 2]),
                 "threads": rng.randrange(1, 3), "buggify": {"pyticks": rng.randrange(3) == 0, "short_recv": rng.randrange(3) == 0}}
     if fam == "master":
@@ -294,7 +295,19 @@ def run_worker(case, choices):
             state["term"] = "sent"
             sim.fault("worker_signal:%s:%s" % (case["sig"], "tick" if current_task() is not None else "time"))
             sim.kill(p.pid, signum)
-    if case["sig_tick"] is not None:
+    if case.get("sig_on_send"):
+        # deliver at the very system call that puts the n-th piece of a response on the wire (its head is the first): the handler's
+        # exception surfaces when send() returns, between "the bytes are out" and whatever the code notes down about that
+        seen = {"n": 0}
+
+        def on_send(s_, actor, kind_, detail):
+            if kind_ == "send" and actor == "worker" and state["term"] is None:
+                seen["n"] += 1
+                if seen["n"] == case["sig_on_send"]:
+                    fire()
+        sim.observers.append(on_send)
+        sim.after(case["sig_at"] + 6.0, fire)
+    elif case["sig_tick"] is not None:
         # deliver at a system-call index of the worker's main thread, counted from the moment the phase begins
         def arm():
             t = p.tasks[0]
